@@ -336,6 +336,23 @@ struct StrPool {
         auto idx = [&](int k) { return atoi(f[k].c_str()); };
         if (op == "new") { Block<char> d = units<char>(f[2]); new (mem[o]) S(S::from_validated(d.data(), d.size())); live[o] = true; }
         else if (op == "reads") { battery(at(o)); }
+        else if (op == "readsweep") {
+            // every const member and free function of the battery, with the k-th allocation of the whole battery made
+            // to fail, for k = 0, 1, 2, ... until a run completes: each run must end normally or with std::bad_alloc
+            // (a noexcept function that allocates would end the process), the string must stay unchanged, and
+            // nothing may be leaked (checked at the end of the case)
+            S &x = at(o);
+            for (long k = 0; k < 5000; ++k) {
+                g_fail_in = k;
+                try {
+                    battery(x);
+                    bool fired = (g_fail_in == -1);      // fired but swallowed (iostreams catch exceptions): go on
+                    g_fail_in = -1;
+                    if (!fired) { if (getenv("VERIF_DEBUG")) fprintf(stderr, "readsweep: %ld faulted runs\n", k); break; }
+                }
+                catch (const std::bad_alloc &) { g_fail_in = -1; }
+            }
+        }
         else if (op == "substr") { new (mem[o]) S(at(idx(2)).substr(i64(f[3]), u64(f[4]))); live[o] = true; }
         else if (op == "left") { new (mem[o]) S(at(idx(2)).left(u64(f[3]))); live[o] = true; }
         else if (op == "right") { new (mem[o]) S(at(idx(2)).right(u64(f[3]))); live[o] = true; }
